@@ -709,7 +709,8 @@ func TestC06Cancel(t *testing.T) {
 								ins = Move{K: "batch", Sub: []Move{{K: "recv"}, {K: "cancel"}}}
 							}
 							sc.Script = append(append(append([]Move{}, base[:pos]...), ins), base[pos:]...)
-							check(t, t, "C06", "TestC06", sc, 1)
+							// batches leave the order of ready select arms to the runtime: repeat to sample it
+							check(t, t, "C06", "TestC06", sc, vk.IntEnv("VERIF_C06_REPEAT", 2))
 						}
 					}
 				}
